@@ -100,15 +100,13 @@ pub fn place_on_matrix(
     #[cfg(fast_qr_verif)]
     crate::verif::point("pom.placed");
 
-    let transpose = default::transpose(&qr);
-
     for mask in MASKS {
         let mut copy = qr.clone();
         #[cfg(fast_qr_verif)]
         crate::verif::point("pom.mask");
-        let copy_transpose = transpose.clone();
 
         datamasking::mask(&mut copy, mask);
+        let copy_transpose = default::transpose(&copy);
         let matrix_score = score::score(&copy, &copy_transpose);
         #[cfg(fast_qr_verif)]
         crate::verif::record_candidate(mask, matrix_score, &copy);
